@@ -7,6 +7,7 @@
 Require Import Htp.Model.MConnTypes Htp.Model.MBstr Htp.Model.MTxCommon Htp.Model.MReqLine Htp.Model.MTxReq Htp.Model.MReq.
 Require Import Htp.Model.MResLine Htp.Model.MTxRes Htp.Model.MRes Htp.Model.MConnp.
 Require Import Htp.Spec.SBody Htp.Proof.PBody Htp.Proof.PBodyReq Htp.Proof.PBodyReqRun Htp.Proof.PBodyReqLine Htp.Proof.PBodyReqChunked.
+Require Import Htp.Proof.PBodyRes Htp.Proof.PBodyResRun Htp.Proof.PBodyResId Htp.Proof.PBodyResLine Htp.Proof.PBodyResChunked Htp.Proof.PBodyResChunked2.
 Local Open Scope Z_scope.
 
 (* ------------------------------------------------------------------ (5) accounting: EVERY input, EVERY callback behaviour *)
@@ -140,6 +141,111 @@ Theorem C06_chunked_decode_encode_partial : forall cb g, (forall n, cb H_REQUEST
 Proof. intros cb g H. exact (bd_rq_chunked_body cb g H). Qed.
 Print Assumptions C06_chunked_decode_encode_partial.
 
+(* ------------------------------------------------------------------ response side *)
+(* (1) twin: one step of RES_BODY_IDENTITY_CL_KNOWN; when the body completes the NULL end marker is delivered in the same
+   call (bd_rs_deliver o t data len c = the parser after RESPONSE_BODY_DATA got (data, len): one event, response_message_len
+   and response_entity_len + len) *)
+Theorem C06_identity_step_res : forall cb, (forall n, cb H_RESPONSE_BODY_DATA n = CB_OK) -> forall o t c,
+  bd_rs_inv o c -> tx_slot c o = Some t -> 0 < c_out_body_data_left c ->
+  let n := c_out_body_data_left c in
+  let dd := firstn (Z.to_nat n) (bd_rs_rest c) in
+  rs_RES_BODY_IDENTITY_CL_KNOWN cb c =
+    if (length dd =? 0)%nat then (ST_DATA, c)
+    else let c1 := rs_advance (length dd) (bd_rs_deliver o t (Some dd) (length dd) c) in
+         let c2 := c1 <| c_out_body_data_left := c_out_body_data_left c1 - Z.of_nat (length dd) |> in
+         if n - Z.of_nat (length dd) =? 0
+         then (ST_OK, bd_rs_deliver o (t <| t_response_message_len ::= Z.add (Z.of_nat (length dd)) |>
+                                        <| t_response_entity_len ::= Z.add (Z.of_nat (length dd)) |>) None 0
+                                    (rs_set_state RES_FINALIZE c2))
+         else (ST_DATA, c2).
+Proof. exact bd_rs_cl_known_step. Qed.
+Print Assumptions C06_identity_step_res.
+
+(* (2) twin: Content-Length body under every chunking; the last event is the NULL end marker *)
+Theorem C06_identity_body_res : forall cb g, (forall n, cb H_RESPONSE_BODY_DATA n = CB_OK) -> forall o rem c body rest,
+  bd_rs_inv o c -> bd_rs_clean c -> c_out_state c = RES_BODY_IDENTITY_CL_KNOWN ->
+  c_out_body_data_left c = Z.of_nat (length body) -> body <> [] ->
+  Forall (fun d => d <> []) rem ->
+  bd_rs_rest c ++ concat rem = body ++ rest ->
+  exists c' rem',
+    bd_rs_seg cb g o c rem c' rem' body (Z.of_nat (length body)) /\
+    c_out_state c' = RES_FINALIZE /\ c_out_body_data_left c' = 0 /\
+    bd_rs_rest c' ++ concat rem' = rest /\
+    c_out_chunked_length c' = c_out_chunked_length c /\
+    (exists evs0, c_events c' = mkev H_RESPONSE_BODY_DATA o None false None :: evs0).
+Proof. intros cb g H. exact (bd_rs_identity_seg cb g H). Qed.
+Print Assumptions C06_identity_body_res.
+
+(* (4) close-delimited body: every byte of every chunk is delivered, in order; c_last = the parser at the start of the
+   last call, which returns HTP_DATA leaving c''; the close call itself only moves to RES_FINALIZE *)
+Theorem C06_close_delimited : forall cb g, (forall n, cb H_RESPONSE_BODY_DATA n = CB_OK) -> forall o rem c,
+  bd_rs_inv o c -> c_out_state c = RES_BODY_IDENTITY_STREAM_CLOSE -> Forall (fun d => d <> []) rem ->
+  exists c_last c'' evs,
+    bd_rs_reach cb g c rem c_last [] /\ rs_RES_BODY_IDENTITY_STREAM_CLOSE cb c_last = (ST_DATA, c'') /\
+    bd_rs_inv o c'' /\ bd_rs_rest c'' = [] /\ c_out_state c'' = RES_BODY_IDENTITY_STREAM_CLOSE /\
+    c_events c'' = evs ++ c_events c /\ bd_delivered H_RESPONSE_BODY_DATA evs = bd_rs_rest c ++ concat rem /\
+    bd_evs H_RESPONSE_BODY_DATA evs = evs /\
+    (forall t, tx_slot c o = Some t -> exists t', tx_slot c'' o = Some t' /\
+       t_response_entity_len t' = t_response_entity_len t + Z.of_nat (length (bd_rs_rest c ++ concat rem)) /\
+       t_response_message_len t' = t_response_message_len t + Z.of_nat (length (bd_rs_rest c ++ concat rem))).
+Proof. intros cb g H. exact (bd_rs_close_delimited cb g H). Qed.
+Print Assumptions C06_close_delimited.
+Theorem C06_close_delimited_at_close : forall cb c,
+  (c_out_status c =? c_HTP_STREAM_CLOSED) = true -> k_len (c_out c) = k_read (c_out c) ->
+  rs_RES_BODY_IDENTITY_STREAM_CLOSE cb c = (ST_OK, rs_set_state RES_FINALIZE c).
+Proof. exact bd_rs_stream_close_at_close. Qed.
+(* bd_rs_reach unrolls the real for(;;) of htp_connp_res_data *)
+Theorem C06_res_loop_unroll : forall cb g f c,
+  rs_res_loop cb g (S f) false c = match bd_rs_iter cb g c with inl r => r | inr c' => rs_res_loop cb g f false c' end.
+Proof. exact bd_rs_loop_unroll. Qed.
+
+(* (3a) response twin of the line assembly: the additional premise bd_suffixes_ok says that the look-ahead
+   data_probe_chunk_length cannot answer "not a chunk length" on any piece a TCP cut can produce (see K1 below);
+   0 <= v excludes the "-1004 empty line" and the invalid-length paths *)
+Theorem C06_line_assembly_res : forall cb g o rem c lrest rest t,
+  bd_rs_inv o c -> c_out_state c = RES_BODY_CHUNKED_LENGTH -> k_consume (c_out c) = k_read (c_out c) ->
+  bd_rs_rest c ++ concat rem = lrest ++ LF :: rest -> bd_no_lf lrest = true -> bd_suffixes_ok lrest = true ->
+  (length (bd_rs_pending c) + length lrest + 1 <= g_field_limit_hard g)%nat ->
+  Forall (fun d => d <> []) rem -> tx_slot c o = Some t ->
+  let line := bd_rs_pending c ++ lrest ++ [LF] in
+  let v := bd_rs_line_value line in
+  0 <= v ->
+  exists c2 rem2 c',
+    bd_rs_reach cb g c rem c2 rem2 /\
+    rs_state_fn cb g (c_out_state c2) c2 = (ST_OK, c') /\
+    c_out_chunked_length c' = v /\ c_out_state c' = bd_rs_line_state v /\
+    bd_rs_rest c' ++ concat rem2 = rest /\ Forall (fun d => d <> []) rem2 /\
+    c_events c' = c_events c /\ c_out_body_data_left c' = c_out_body_data_left c /\
+    c_out_tx c' = Some o /\ c_out_status c' = c_out_status c2 /\ bd_rs_inv o c2 /\
+    k_consume (c_out c') = k_read (c_out c') /\ k_buf (c_out c') = None /\ k_header (c_out c') = None /\ k_receiver_hook (c_out c') = None /\
+    (exists d, k_data (c_out c') = Some d /\ k_len (c_out c') = length d /\ (k_read (c_out c') <= length d)%nat) /\
+    exists t', tx_slot c' o = Some t' /\ t_hook_response_body t' = t_hook_response_body t /\ t_res_cep t' = t_res_cep t /\
+               t_response_entity_len t' = t_response_entity_len t /\
+               t_response_message_len t' = t_response_message_len t + Z.of_nat (length line) /\
+               (v = 0 -> t_response_progress t' = c_HTP_RESPONSE_TRAILER).
+Proof. intros cb g. exact (bd_rs_line_assembly cb g). Qed.
+Print Assumptions C06_line_assembly_res.
+
+(* (3b) chunked decode(encode), response side, under bd_res_chunk_ok (= bd_chunk_ok + bd_res_line_ok) *)
+Theorem C06_chunked_decode_encode_res_partial : forall cb g, (forall n, cb H_RESPONSE_BODY_DATA n = CB_OK) ->
+  forall o ks rem c last rest t,
+  bd_rs_inv o c -> bd_rs_clean c -> c_out_state c = RES_BODY_CHUNKED_LENGTH ->
+  Forall (fun k => bd_res_chunk_ok k = true) ks ->
+  bd_last_ok bd_rs_line_value last = true -> bd_res_line_ok last = true ->
+  bd_lines_fit (g_field_limit_hard g) ks last = true ->
+  bd_rs_rest c ++ concat rem = bd_chunks_wire ks ++ last ++ rest ->
+  Forall (fun d => d <> []) rem -> tx_slot c o = Some t ->
+  exists c' rem' t' evs,
+    bd_rs_reach cb g c rem c' rem' /\ c_out_state c' = RES_HEADERS /\
+    bd_rs_rest c' ++ concat rem' = rest /\ Forall (fun d => d <> []) rem' /\
+    c_events c' = evs ++ c_events c /\ bd_delivered H_RESPONSE_BODY_DATA evs = bd_chunks_data ks /\
+    bd_evs H_RESPONSE_BODY_DATA evs = evs /\
+    tx_slot c' o = Some t' /\ t_response_progress t' = c_HTP_RESPONSE_TRAILER /\
+    t_response_entity_len t' = t_response_entity_len t + Z.of_nat (length (bd_chunks_data ks)) /\
+    t_response_message_len t' = t_response_message_len t + Z.of_nat (length (bd_chunks_wire ks) + length last).
+Proof. intros cb g H. exact (bd_rs_chunked_body cb g H). Qed.
+Print Assumptions C06_chunked_decode_encode_res_partial.
+
 (* ------------------------------------------------------------------ Examples: the premises are reachable and satisfiable *)
 Require Coq.Strings.String.
 Import Coq.Strings.String.StringSyntax.
@@ -161,6 +267,16 @@ Example C06_chunk_premises_nonvacuous :
   forallb (bd_chunk_ok bd_rq_line_value) C06_ex_chunks = true /\ bd_last_ok bd_rq_line_value bd_last_line = true /\
   bd_lines_fit (g_field_limit_hard C06_ex_g) C06_ex_chunks bd_last_line = true /\
   forallb bd_res_chunk_ok C06_ex_chunks = true.
+Proof. vm_compute. repeat split. Qed.
+(* the response parser after the header block of a chunked response: the state the response theorems start from *)
+Definition C06_ex_c0_res : connp :=
+  let rq := bd_lines ["GET /1 HTTP/1.1"; "Host: a"; ""] in
+  let rs := bd_lines ["HTTP/1.1 200 OK"; "Transfer-Encoding: chunked"; ""] in
+  fst (connp_res_data C06_ex_cb C06_ex_g (Some rs) (length rs)
+         (fst (connp_req_data C06_ex_cb C06_ex_g (Some rq) (length rq) (connp_open connp_new)))).
+Example C06_premises_reachable_res :
+  bd_rs_invb 0 C06_ex_c0_res = true /\ bd_rs_cleanb C06_ex_c0_res = true /\ c_out_state C06_ex_c0_res = RES_BODY_CHUNKED_LENGTH /\
+  bd_res_line_ok bd_last_line = true /\ bd_last_ok bd_rs_line_value bd_last_line = true.
 Proof. vm_compute. repeat split. Qed.
 (* the encoder of DESIGN Appendix A produces such chunks *)
 Example C06_encoder_chunk_ok :
